@@ -446,7 +446,7 @@ def project_stats(rec, stats):
 
 
 def run_traced(description, controller_params, num_procs, u0_fn, t0, Tend, unit=None, script=None, mode='lattice',
-               extra_hooks=(), controller_cls=TracedController, default=None):
+               extra_hooks=(), controller_cls=TracedController, default=None, defect_check=True):
     """Build a traced controller from a plain description and run it.  Returns (recorder, outcome dict)."""
     global _CURRENT
     import copy
@@ -468,6 +468,7 @@ def run_traced(description, controller_params, num_procs, u0_fn, t0, Tend, unit=
     rec = Recorder(t0=t0, unit=unit, script=script, mode=mode)
     rec.post_step_obs = []
     rec.default = default
+    rec.defect_check = defect_check
     out = dict(exc=None, uend=None, stats=None)
     _CURRENT = rec
     try:
